@@ -90,7 +90,7 @@ theorem resetUser_obs (s : St) (m tms tlog : Nat) (ig : Bool) (f : Fault) :
 /-- a step either is a successful `getTS` – it then reports exactly the grant it logs – or it
     logs nothing and reports no timestamp -/
 theorem step_obs (s : St) (op : Op) :
-    (∃ m count p l, op = .getTS m count ∧ (step s op).2 = .ts (msOf p) (l * 2 ^ s.cfg.bits + s.cfg.suffix) ∧
+    (∃ m count p l, (op = .getTS m count ∨ op = .tryTS m count) ∧ (step s op).2 = .ts (msOf p) (l * 2 ^ s.cfg.bits + s.cfg.suffix) ∧
         (step s op).1.grants = ⟨m, msOf p, l - count, l, p, s.stored⟩ :: s.grants ∧ count ≤ l ∧ 0 < count ∧
         (step s op).1.stored = s.stored)
     ∨ ((step s op).2.isTs = false ∧ (step s op).1.grants = s.grants) := by
@@ -103,8 +103,16 @@ theorem step_obs (s : St) (op : Op) :
       · right; exact ⟨rfl, rfl⟩
       · next hc =>
         rcases getTSLoop_obs s m count s.cfg.maxRetry with ⟨p, l, h1, _, h3, h4, h5⟩ | ⟨h1, h2, _⟩
-        · left; exact ⟨m, count, p, l, rfl, h1, h3, h4, by omega, h5⟩
+        · left; exact ⟨m, count, p, l, Or.inl rfl, h1, h3, h4, by omega, h5⟩
         · right; exact ⟨h1, h2⟩
+  | tryTS m count =>
+    simp only [step]
+    split
+    · right; exact ⟨rfl, rfl⟩
+    · next hc =>
+      rcases getTSLoop_obs s m count 1 with ⟨p, l, h1, _, h3, h4, h5⟩ | ⟨h1, h2, _⟩
+      · left; exact ⟨m, count, p, l, Or.inr rfl, h1, h3, h4, by omega, h5⟩
+      · right; exact ⟨h1, h2⟩
   | lead m => right; simp only [step]; split <;> exact ⟨rfl, rfl⟩
   | expire m => right; exact ⟨rfl, rfl⟩
   | resign => right; exact ⟨rfl, rfl⟩
@@ -150,5 +158,19 @@ theorem step_obs (s : St) (op : Op) :
     · exact ⟨rfl, rfl⟩
     · have := resetUser_obs s m ms logical ig f; exact ⟨this.2, this.1⟩
   | resetMem m => right; exact ⟨rfl, rfl⟩
+
+/-- the retry loop of `getTS` is the iteration of single attempts (`Op.tryTS`): between two attempts the
+    caller only sleeps, so a history may interleave anything there -/
+theorem getTSLoop_succ (s : St) (m count n : Nat) :
+    getTSLoop s m count (n + 1) =
+      (if (getTSLoop s m count 1).2 = .errExceeded then getTSLoop (getTSLoop s m count 1).1 m count n
+       else getTSLoop s m count 1) := by
+  cases hph : (s.mems m).phys with
+  | none =>
+    cases hl : (s.mems m).lease <;> simp [getTSLoop, hph, hl]
+  | some p =>
+    by_cases hov : ((s.mems m).logical + count) * 2 ^ s.cfg.bits + s.cfg.suffix ≥ s.cfg.maxLogical
+    · simp [getTSLoop, hph, hov]
+    · cases hl : (s.mems m).lease <;> simp [getTSLoop, hph, hov, hl]
 
 end PdModel.Tso
